@@ -34,6 +34,7 @@ POOL = [
     "<{|x| yield x if x < 3; recur(x + 1)}>.new(0)", "[1, 2]._iter",
     "Int", "Arr", "Str", "Obj", "BaseObj", "Iter", "Either", "Kernel", "Err", "Comparable",
     'Err.new("m")', "ValueErr", "_", "Either.newVal(1)", 'Either.newErr(Err.new("e"))', "1.try",
+    "{|x| x}.bear({})", "[1, 2]._iter.bear({})", "<{|x| yield x}>.bear({})", "<{|x| yield x}>.new(1).bear({})", "(1:3).bear({})", '"ab".bear({})', "nil.bear({})",
     "Int.bear", "Int.bear({}).new(5)", "Int.bear({}).new(0)", "(Int.bear({}).new(5) - Int.bear({}).new(5))", "Float.bear({}).new(0.0)", 'Str.bear({}).new("")', "Arr.bear({}).new(1, 2)", "Str.bear", "{call: {|x| x}}", "{_missing: {|s, n| n}}",
 ]
 # integers at and around sizes where tables, caches and fast paths change
@@ -41,7 +42,7 @@ INTS = ["7", "64", "127", "128", "129", "255", "256", "257", "1023", "1024", "10
         "2147483647", "2147483648", "-2147483648", "-2147483649", "4294967296", "9007199254740993", "(2 ** 10)", '("ab" * 512).len', "(1 << 16)"]
 SMALL = ["nil", "0", "-1", "2", '"a"', "[1, 2, 3]", "{a: 1}", "(1:3)", "{|x| x}", "Int", "1.5", "%{1: 2}"]
 THIRD = ["nil", "1", "-1", '"b"', "[]", "{|x, y| x}", "{}", "9223372036854775807"]
-KWS = ["", "{base: 2}", "{base: nil}", "{end: 1}", "{sep: nil}", "{private?: 1}", "{key: {|x| x}}", "{key: 3}"]
+KWS = ["", "{base: 2}", "{base: nil}", "{base: 1}", "{base: 0}", "{base: -1}", "{base: 37}", "{base: 63}", "{base: 'a}", "{sep: \"\"}", "{end: nil}", "{private?: nil}", "{end: 1}", "{sep: nil}", "{private?: 1}", "{key: {|x| x}}", "{key: 3}"]
 INFIX = ["+", "-", "*", "/", "//", "%", "**", "==", "!=", "<", "<=", ">", ">=", "<=>", "===", "!==", "&&", "||",
          "<<", ">>", "/&", "/|", "/^", "=>"]
 PREFIX = ["!", "-", "+", "/~", "*", "**"]
